@@ -41,6 +41,7 @@ fn pair_ok(a: &Node, b: &Node) -> bool {
 }
 
 //@ ob: C12.O1
+//@ also: C14
 //@ rss: 0.9
 //@ time: 27
 //@ tier: quick
@@ -73,9 +74,9 @@ fn c12_o1_kbucket_add_step() {
         assert!(same(&s[2], &inc), "C12.O1 new node appended at the tail");
     } else {
         assert!(known, "C12.O1 a new id is added while the bucket has room");
-        if r {
-            assert!(same(&s[1], &inc), "C12.O1 refreshed node moves to the tail");
-        }
+        // private addresses are BEP42-exempt, so the incoming node is secure: a known id is refreshed
+        assert!(r, "C14.O1 a known peer seen again from a BEP42-secure address is refreshed");
+        assert!(same(&s[1], &inc), "C12.O1 refreshed node moves to the tail");
     }
     kani::cover!(r && s.len() == 3);
     kani::cover!(r && s.len() == 2);
@@ -89,15 +90,13 @@ fn c12_o1_kbucket_add_step() {
 //@ cap: 800
 //@ standins: vcoll
 //@ desc: KBucket::add update rule with public IPs (secure and insecure ids): a known id is replaced iff incoming is BEP42-secure or (existing insecure and same IP); never two entries with one id
-//@ bounds: bucket of 1 + 1 incoming with the same id bytes, IPs from {8.8.8.8, 1.2.3.4}, symbolic BEP42 prefix and r; unwind 21; P: at most 4 distinct (ip, r) arguments
-//@ stubs: std::time::Instant::now -> symbolic whole-second clock; id::id_prefix_ipv4 (BEP42 CRC32C) -> uninterpreted function P(ip, r) (ghost table; the real CRC is bound by C19.O3 / C11.O1)
+//@ bounds: bucket of 1 + 1 incoming with the same id bytes, IPs from {8.8.8.8, 1.2.3.4}, symbolic BEP42 prefix and r; unwind 21
+//@ stubs: std::time::Instant::now -> symbolic whole-second clock
 //@ functions: KBucket::add, Node::is_secure, Id::is_valid_for_ip
 #[kani::proof]
 #[kani::stub(std::time::Instant::now, clock::now)]
-#[kani::stub(crate::common::id::id_prefix_ipv4, crate::verif_env::ufp::prefix)]
 #[kani::unwind(21)]
 fn c12_o1b_kbucket_update_rule() {
-    crate::verif_env::ufp::arm(kani::any());
     clock::set(0);
     let existing = any_public_node_160();
     let ip = if kani::any() { [8, 8, 8, 8] } else { [1, 2, 3, 4] };
@@ -117,7 +116,6 @@ fn c12_o1b_kbucket_update_rule() {
     kani::cover!(!r);
     kani::cover!(r && !inc.is_secure());
     std::mem::forget(b);
-    assert!(!crate::verif_env::cut_reached(), "CUT: more distinct (ip, r) pairs than P has slots");
 }
 
 //@ ob: C12.O2
